@@ -1,6 +1,6 @@
 (* C05 — HDF5-era lazy and concatenated indexers equal composed outer indexing.  Only statements here. *)
 From Coq Require Import ZArith List Bool.
-From KV Require Import Base.Sx Base.PySlice Base.AxisIndex Base.NdArray Gen.Generated
+From KV Require Import Base.Sx Base.PySlice Base.AxisIndex Base.NdArray Base.LazyDType Gen.Generated
   Model.LazyIdx Model.ConcatIdx Proofs.LazyIdxP Proofs.ConcatIdxP.
 Import ListNotations.
 Open Scope Z_scope.
@@ -103,23 +103,61 @@ Proof. exact getitem_shape_dtype. Qed.
 Print Assumptions C05_shape_dtype_any_index.
 
 (* C05_concat (full strength): for every list of raw parts (any number, some without data on the first axis, each
-   a LazyIndexer with its own source and first stage), every index tuple (head: scalar incl. negative, slice with
-   any start/stop, mask, integer list incl. negative / unsorted-across-parts; any tail) and every transform chain of
-   the concatenation: if the concatenated indexer answers, the answer is exactly the transforms of the SAME index
-   applied to the concatenation (first axis) of the parts' first-stage results -- values, shape and dtype.
-   Hypotheses, stated explicitly: shapes are non-negative and have at least one axis, all parts have the same
-   dtype [dt] (raw_ok), and every part's first stage exists (numpy accepts source[stage 1]).
+   a LazyIndexer with its own source, its own first stage AND ITS OWN DTYPE), every index tuple (head: scalar incl.
+   negative, slice with any start/stop, mask, integer list incl. negative / unsorted-across-parts; any tail) and every
+   transform chain of the concatenation: if the indexer could be constructed (c_mk: the dtypes of the parts with rows
+   are all equal or all byte strings, katdal's rule) and it answers, the answer is exactly the transforms of the SAME
+   index applied to np.concatenate (first axis) of the parts' first-stage results -- values, shape and dtype, where
+   the dtype of the concatenation is numpy's promotion of the parts' dtypes (spec_concat / promote_all) and not the
+   dtype of any particular part.  Every part answers in its own dtype and is cast to the result dtype where it enters
+   the result (part_get / astype / cast_val: a narrower byte-string buffer truncates, see C05_concat_dtype_example);
+   the theorem holds because _initial_dtype is at least as wide as every part (C05_common_dtype).
+   Hypotheses, stated explicitly: shapes are non-negative and have at least one axis (raw_ok) and every part's first
+   stage exists (numpy accepts source[stage 1]).  No common-dtype hypothesis any more.
    No guard for the open findings F10 / F10b / F30b: the indexer raises there, so the implication holds. *)
-Theorem C05_concat : forall dt raws ts ix c out fulls,
-  Forall (raw_ok dt) raws ->
+Theorem C05_concat : forall raws ts ix c out fulls,
+  Forall raw_ok raws ->
   mapM (fun r => oindex_keep (mk_nd (r_shape r) (r_ds r)) (r_keep r)) raws = Ok fulls ->
   c_mk raws ts = Ok c -> c_getitem c ix = Ok out ->
   spec_concat raws ts ix = Ok out.
 Proof. exact concat_correct. Qed.
 Print Assumptions C05_concat.
 
-(* the core of C05_concat on abstract parts: any parts behaving like outer indexing of their own result [f]
-   (part_ok), with running offsets; C05_concat_parts shows every LazyIndexer part does (by C05_getitem) *)
+(* what katdal's _initial_dtype guarantees when it accepts the dtypes of the kept parts: every part's dtype can be
+   stored in it without changing a value, and it is numpy's promotion (the dtype of np.concatenate) of them *)
+Theorem C05_common_dtype : forall l dt, common_dtype l = Ok dt ->
+  Forall (fun d => dtype_le d dt) l /\ promote_all l = Ok dt.
+Proof. exact common_dtype_spec. Qed.
+Print Assumptions C05_common_dtype.
+
+(* storing an element in an array whose dtype it fits keeps the value (equal dtype, or a wider byte string) ... *)
+Theorem C05_cast_widen : forall from to v, dtype_le from to -> cast_val from to v = v.
+Proof. exact cast_widen. Qed.
+Print Assumptions C05_cast_widen.
+
+(* ... and so does every cast np.concatenate performs (bool < int < float < complex, byte strings by width):
+   this is why spec_concat needs no value cast *)
+Theorem C05_promotion_keeps_values : forall a b c v, promote a b = Ok c -> cast_val a c v = v /\ cast_val b c v = v.
+Proof. exact promote_cast_id. Qed.
+Print Assumptions C05_promotion_keeps_values.
+
+(* parts |S2, (empty float part), |S4: list, slice, scalar and mask heads equal the spec and answer in |S4; int + float
+   parts are rejected at construction; and the cast |S4 -> |S2 (a buffer of the first part's dtype) loses data *)
+Theorem C05_concat_dtype_example :
+  run_concat bytes_parts [AList [4; 0]] = spec_concat bytes_parts [] [AList [4; 0]]
+  /\ has_dtype 104 (run_concat bytes_parts [AList [4; 0]])
+  /\ run_concat bytes_parts [ASlice None (Some 2) None] = spec_concat bytes_parts [] [ASlice None (Some 2) None]
+  /\ has_dtype 104 (run_concat bytes_parts [ASlice None (Some 2) None])
+  /\ run_concat bytes_parts [AInt 1] = spec_concat bytes_parts [] [AInt 1]
+  /\ run_concat bytes_parts [AMask [false; true; false; false; true]] = spec_concat bytes_parts [] [AMask [false; true; false; false; true]]
+  /\ run_concat [mk_craw [2] [] (arange [2] 0) 0; mk_craw [2] [] (arange [2] 1) 1] [] = Err
+  /\ cast_val 104 102 (enc_val 104 7) <> enc_val 104 7.
+Proof. exact concat_dtype_example. Qed.
+Print Assumptions C05_concat_dtype_example.
+
+(* the core of C05_concat on abstract parts: any parts which, cast to the result dtype [dt], behave like outer
+   indexing of their own result [f] (part_ok), with running offsets; C05_concat_parts + C05_concat_part_cast show
+   that every LazyIndexer part whose dtype fits [dt] does *)
 Theorem C05_concat_core : forall ps fs T dt,
   Forall2 (part_ok T dt) ps fs -> ps <> [] -> Forall (fun p => 0 <= part_len p) ps ->
   forall ts ixs out,
@@ -131,14 +169,19 @@ Theorem C05_concat_core : forall ps fs T dt,
 Proof. exact concat_core. Qed.
 Print Assumptions C05_concat_core.
 
-(* every real part satisfies the hypothesis of C05_concat_partial *)
+(* every real part answers like outer indexing of its own result, in its own dtype (by C05_getitem) ... *)
 Theorem C05_concat_parts : forall r li a1,
   Forall (fun d => 0 <= d) (r_shape r) -> r_shape r <> [] ->
   mk_lazy (r_shape r) (r_keep r) [] (r_dt r) = Ok li ->
   oindex_keep (mk_nd (r_shape r) (r_ds r)) (r_keep r) = Ok a1 ->
-  part_ok (tl (nd_shape a1)) (r_dt r) (mk_cpart li (r_ds r)) a1 /\ 0 <= part_len (mk_cpart li (r_ds r)).
+  part_ok0 (tl (nd_shape a1)) (mk_cpart li (r_ds r)) a1 /\ 0 <= part_len (mk_cpart li (r_ds r)).
 Proof. exact part_ok_of_raw. Qed.
 Print Assumptions C05_concat_parts.
+
+(* ... and therefore satisfies the hypothesis of C05_concat_core for every result dtype that its own dtype fits *)
+Theorem C05_concat_part_cast : forall T dt p f, part_ok0 T p f -> dtype_le (part_dtype p) dt -> part_ok T dt p f.
+Proof. exact part_ok_upgrade. Qed.
+Print Assumptions C05_concat_part_cast.
 
 (* arithmetic core of the slice branch: splitting a progression at a part boundary *)
 Theorem C05_concat_split : forall st e B, 0 < st -> forall (n : nat) s, e - s <= Z.of_nat n ->
